@@ -34,6 +34,10 @@ CHECKS = {
         'Generated grammars with 1-3 inserted cuts x sentences corrupted right after each passed cut; three oracles (reference; cuts are invisible '
         'when no failure follows an executed cut; an outer choice still backtracks). Exploration; classes of cut scope are counted in the evidence.',
         REF_NOTE, 'DESIGN.md §3 C05'),
+    'C06': (
+        'property-based testing: generated grammars x inputs x generated semantics objects; reference oracle RefPEG-with-actions; call-log multiset comparison; exception identity check; model and generated parser',
+        'Generated grammars (with rule parameters, @nomemo) x inputs x semantics {identity, tagging, _default only, mixed, FailedSemantics on a value from the reference trace, raising one of 10 exception classes on such a value}: outcome/AST equal to the reference running the same actions; action calls are a sub-multiset of the memo-free reference\'s with the same support (exact when every rule is @nomemo); a foreign exception reaches the caller as the same object. Exploration.',
+        REF_NOTE + '; shapes affected by known findings F-C01-a (open-list rule values) and F-C02-a (generated parser name binding) are not judged', 'DESIGN.md §3 C06'),
     'C12': (
         'exhaustive enumeration of short strings x offsets against an independent line splitter; property-based parseinfo check against RefPEG trace',
         '(a) every string over {a, space, LF, CR} up to length 6 (quick) / 9 (thorough) x every offset x both input classes, exhaustively, plus '
